@@ -1165,6 +1165,8 @@ pub struct PairRun {
     /// completed under the generous executor although stalled under the strict one
     pub completed_when_repolled: Option<bool>,
     pub stats: Vec<(Side, Option<h2::verif::VerifStats>, bool)>,
+    /// statistics sampled every 8 executor steps while the run was going: (step, side, stats)
+    pub samples: Vec<(u64, Side, h2::verif::VerifStats)>,
 }
 
 pub fn run_pair(case: &PairCase) -> PairRun {
@@ -1262,7 +1264,18 @@ pub fn run_sim_cap(case: &PairCase, raw: Option<(Side, Rc<crate::sim_raw::RawSpe
     }
     let total_bytes: usize = case.reqs.iter().map(|r| r.req.chunks.iter().map(|c| c.len).sum::<usize>() + r.resp.chunks.iter().map(|c| c.len).sum::<usize>() + r.req.big + r.resp.big).sum();
     let budget = 200_000 + 64 * total_bytes as u64 + 20_000 * case.reqs.len() as u64;
-    let mut end = exec.run(budget);
+    let mut samples: Vec<(u64, Side, h2::verif::VerifStats)> = Vec::new();
+    let probes = ctx.probes.clone();
+    let mut end = exec.run_sampled(budget, &mut |step| {
+        if samples.len() < 4000 {
+            for (side, p) in probes.borrow().iter() {
+                if let Some(st) = p.stats() {
+                    samples.push((step, *side, st));
+                }
+            }
+        }
+    });
+    drop(probes);
     if let Some(f) = &case.fault {
         if end == RunEnd::Quiescent {
             let p = if f.c2s { &wire.c2s } else { &wire.s2c };
@@ -1309,6 +1322,7 @@ pub fn run_sim_cap(case: &PairCase, raw: Option<(Side, Rc<crate::sim_raw::RawSpe
             steps: exec.clock.get(),
             completed_when_repolled,
             stats,
+            samples,
             wire,
         };
         teardown_all(exec, ctx, &mut run);
@@ -1323,6 +1337,7 @@ pub fn run_sim_cap(case: &PairCase, raw: Option<(Side, Rc<crate::sim_raw::RawSpe
         steps: exec.clock.get(),
         completed_when_repolled,
         stats,
+        samples,
         wire,
     };
     teardown_all(exec, ctx, &mut run);
